@@ -10,7 +10,7 @@ import (
 // Verif_C04_R1_UseCount: all histories of <= k operations on the real
 // block-device block allocator with two device blocks: allocate a block, drop
 // the list's reference (Release), open a reader (Get), close a reader, start an
-// upload (Put), finish an upload. Ghost model: per block the number of holders.
+// upload (Put), finish an upload, fail an upload (source error). Ghost model: per block the number of holders.
 // After every step: the region of a block is on the free list iff nobody holds
 // the block any more, exactly once; NewBlock never hands out a region that
 // somebody still holds; nothing panics (use counts never go negative or get
@@ -58,7 +58,7 @@ func Verif_C04_R1_UseCount() {
 	}
 	check()
 	for s := 0; s < steps; s++ {
-		op := vnd.Choose(6)
+		op := vnd.Choose(7)
 		switch op {
 		case 0: // allocate
 			b, loc, err := pa.NewBlock()
@@ -123,6 +123,18 @@ func Verif_C04_R1_UseCount() {
 					l.writers = l.writers[1:]
 					l.holders--
 					vnd.Cover("writer-finished")
+					break
+				}
+			}
+		case 6: // an upload whose data source fails (possibly after the list released the block)
+			for _, l := range blocks {
+				if len(l.writers) > 0 {
+					fin := l.writers[0](buffer.NewBufferFromError(verifErrNoSpace))
+					_, err := fin()
+					vnd.Assert(err != nil, "an upload whose source failed was acknowledged by the block")
+					l.writers = l.writers[1:]
+					l.holders--
+					vnd.Cover("writer-failed")
 					break
 				}
 			}
